@@ -127,6 +127,11 @@ def rule_accessors_agree(ctx, rid="R17.3"):
     sem = tree_eval(prog)
     if sem is not None:
         msg = sem.get("accessors") or sem.get("absent-index") or sem.get("raises")
+        if sem.get("name-instance"):
+            gi = c.methods.get("__getitem__")
+            r.fail("exceptions.ErrorTree.__getitem__|name-instance", site(gi) if gi else "exceptions.py ErrorTree", sem["name-instance"])
+        elif "name-instance" in sem:
+            r.ok(site(c.methods.get("__getitem__") or c.methods["__init__"]) + " [name]", "an error-free member is found although the node's recorded instance is a member name")
         for name in ("__contains__", "__iter__", "__getitem__", "__setitem__"):
             m = c.methods.get(name)
             if m is None:
